@@ -639,3 +639,92 @@ Proof.
     apply xor_fold_perm. apply NoDup_Permutation; try apply NoDup_nodup.
     intros t. rewrite !nodup_In. apply E2.
 Qed.
+
+(* ================= field-wise equality and hashing (fields regenerated from the source) ================= *)
+Definition field_eq (f : field) (u v : uri) : Prop :=
+  match f with
+  | FProto => u_proto u = u_proto v
+  | FObj => obj_eq (u_obj u) (u_obj v)
+  | FSock => sock_of (u_loc u) = sock_of (u_loc v)
+  | FHost => host_of (u_loc u) = host_of (u_loc v)
+  | FPort => port_of (u_loc u) = port_of (u_loc v)
+  end.
+
+Lemma opt_text_eqb_spec a b : opt_text_eqb a b = true <-> a = b.
+Proof.
+  destruct a as [x|], b as [y|]; cbn; try (split; [discriminate|congruence]); try tauto.
+  rewrite text_eqb_eq. split; congruence.
+Qed.
+Lemma opt_Z_eqb_spec a b : opt_Z_eqb a b = true <-> a = b.
+Proof.
+  destruct a as [x|], b as [y|]; cbn; try (split; [discriminate|congruence]); try tauto.
+  rewrite Z.eqb_eq. split; congruence.
+Qed.
+Lemma field_eqb_spec f u v : field_eqb f u v = true <-> field_eq f u v.
+Proof.
+  destruct f; cbn [field_eqb field_eq].
+  - apply proto_eqb_spec.
+  - apply obj_eqb_spec.
+  - apply opt_text_eqb_spec.
+  - apply opt_text_eqb_spec.
+  - apply opt_Z_eqb_spec.
+Qed.
+
+Lemma mem_field_In f fs : mem_field f fs = true <-> In f fs.
+Proof.
+  unfold mem_field. rewrite existsb_exists. split.
+  - intros [x [H1 H2]]. destruct f, x; try discriminate; exact H1.
+  - intros H. exists f. split; [exact H|destruct f; reflexivity].
+Qed.
+
+Lemma loc_by_fields a b : sock_of a = sock_of b -> host_of a = host_of b -> port_of a = port_of b -> a = b.
+Proof. destruct a, b; cbn; congruence. Qed.
+
+Lemma uri_eq_fields u v : uri_eq u v <-> (forall f, field_eq f u v).
+Proof.
+  split.
+  - intros [E1 [E2 E3]] f. destruct f; cbn; auto; rewrite E3; reflexivity.
+  - intros H. split; [exact (H FProto)|]. split; [exact (H FObj)|].
+    apply loc_by_fields; [exact (H FSock)|exact (H FHost)|exact (H FPort)].
+Qed.
+
+Theorem uri_eqb_on_spec fs : covers fs = true -> forall u v, uri_eqb_on fs u v = true <-> uri_eq u v.
+Proof.
+  intros C u v. unfold uri_eqb_on. rewrite forallb_forall, uri_eq_fields. split.
+  - intros H f. apply field_eqb_spec. apply H. apply mem_field_In.
+    unfold covers in C. rewrite forallb_forall in C. apply C. destruct f; cbn; tauto.
+  - intros H f _. apply field_eqb_spec. apply H.
+Qed.
+
+Theorem neq_location_on fs : covers fs = true -> forall u v, u_loc u <> u_loc v -> uri_eqb_on fs u v = false.
+Proof.
+  intros C u v H. destruct (uri_eqb_on fs u v) eqn:E; [|reflexivity].
+  apply (uri_eqb_on_spec fs C) in E. destruct E as [_ [_ E]]. congruence.
+Qed.
+
+Lemma field_key_eq h f u v : field_eq f u v ->
+  field_key quirks_none h f u = field_key quirks_none h f v /\ field_key quirks_none h f u <> None.
+Proof.
+  destruct f; cbn [field_eq field_key]; intros E; try (rewrite E; split; [reflexivity|discriminate]).
+  destruct (u_obj u) as [x|x], (u_obj v) as [y|y]; cbn in E; try tauto.
+  - subst. split; [reflexivity|discriminate].
+  - cbn [q_meta_unhashable quirks_none]. cbv iota. split; [|discriminate]. do 2 f_equal.
+    apply xor_fold_perm. apply NoDup_Permutation; try apply NoDup_nodup.
+    intros t. rewrite !nodup_In. apply E.
+Qed.
+
+(* equal (as far as __eq__ looks) URIs hash equal provided the hash covers no field that == ignores *)
+Theorem eq_hash_on efs hfs : fields_incl hfs efs = true -> forall h u v, uri_eqb_on efs u v = true ->
+  hash_key_on quirks_none h hfs u = hash_key_on quirks_none h hfs v /\ hash_key_on quirks_none h hfs u <> None.
+Proof.
+  intros I h u v E. unfold uri_eqb_on in E. rewrite forallb_forall in E.
+  unfold fields_incl in I. rewrite forallb_forall in I.
+  induction hfs as [|f hfs IH]; [split; [reflexivity|discriminate]|].
+  assert (Hf : field_eq f u v).
+  { apply field_eqb_spec, E, mem_field_In, I. left. reflexivity. }
+  destruct (field_key_eq h f u v Hf) as [K1 K2].
+  destruct IH as [IH1 IH2]; [intros x Hx; apply I; right; exact Hx|].
+  cbn [hash_key_on]. rewrite <- K1, <- IH1.
+  destruct (field_key quirks_none h f u); [|congruence].
+  destruct (hash_key_on quirks_none h hfs u); [|congruence]. split; [reflexivity|discriminate].
+Qed.
